@@ -139,3 +139,122 @@ def make_recording_transport(config, reply_body=b"", status=200, reason="OK",
     else:
         t = _T(config)
     return t, conns
+
+
+# ---------------------------------------------------------------------------
+# Chunked delivery of replies to the client and of requests to the handler
+
+
+class ShortReadFile(io.RawIOBase):
+    """
+    Serves `data`; reads that start at or beyond `body_start` return at most
+    the next generated size (short reads), earlier ones are not limited.
+    """
+
+    def __init__(self, data, sizes, body_start=0):
+        self._data = data
+        self._pos = 0
+        self._sizes = list(sizes)
+        self._body_start = body_start
+        self.reads = []
+
+    def readable(self):
+        return True
+
+    def readinto(self, b):
+        n = len(b)
+        if self._pos >= self._body_start and self._sizes and self._pos < len(self._data):
+            n = max(1, min(n, self._sizes.pop(0)))
+        chunk = self._data[self._pos:self._pos + n]
+        if self._pos >= self._body_start and chunk:
+            self.reads.append(len(chunk))
+        b[: len(chunk)] = chunk
+        self._pos += len(chunk)
+        return len(chunk)
+
+
+class _ChunkSocket(object):
+    def __init__(self, fileobj):
+        self._file = fileobj
+
+    def makefile(self, *args, **kwargs):
+        return self._file
+
+
+class ChunkedReplyConnection(RecordingConnection):
+    """Delivers the canned reply through a ShortReadFile"""
+
+    def __init__(self, host, reply_bytes, sizes, body_start, **kwargs):
+        RecordingConnection.__init__(self, host, reply_bytes, **kwargs)
+        self.sizes = sizes
+        self.body_start = body_start
+        self.last_file = None
+
+    def getresponse(self):
+        self.last_file = ShortReadFile(self.reply_bytes, self.sizes, self.body_start)
+        # http.client reads through a buffered file object (socket.makefile)
+        response = http.client.HTTPResponse(_ChunkSocket(io.BufferedReader(self.last_file, 1)), method="POST")
+        response.begin()
+        self._HTTPConnection__state = "Idle"
+        self._HTTPConnection__response = None
+        return response
+
+
+class FakeRequestSocket(object):
+    """Stands for the accepted socket of a request handler"""
+
+    def __init__(self, request_bytes, sizes, body_start):
+        self.rfile = ShortReadFile(request_bytes, sizes, body_start)
+        self.sent = bytearray()
+
+    def makefile(self, mode="rb", bufsize=-1):
+        if "w" in mode:
+            sock = self
+
+            class _Writer(io.RawIOBase):
+                def writable(self):
+                    return True
+
+                def write(self, b):
+                    sock.sent.extend(bytes(b))
+                    return len(b)
+            return _Writer()
+        return self.rfile
+
+    def sendall(self, data):
+        self.sent.extend(bytes(data))
+
+    def setsockopt(self, *args):
+        pass
+
+    def settimeout(self, value):
+        pass
+
+    def close(self):
+        pass
+
+
+def post_to_handler(dispatcher, body_bytes, sizes, path="/", extra_headers=()):
+    """
+    Drives the real SimpleJSONRPCRequestHandler.do_POST for one POST whose
+    body is delivered with the generated read sizes.
+    -> (status line, [(name, value)], reply body bytes, read sizes used)
+    """
+    from jsonrpclib.SimpleJSONRPCServer import SimpleJSONRPCRequestHandler
+
+    head = ["POST %s HTTP/1.0" % path, "Host: verif", "Content-Type: application/json-rpc",
+            "Content-Length: %d" % len(body_bytes)]
+    head.extend("%s: %s" % kv for kv in extra_headers)
+    head_bytes = ("\r\n".join(head) + "\r\n\r\n").encode("latin-1")
+    sock = FakeRequestSocket(head_bytes + body_bytes, sizes, len(head_bytes))
+    if not hasattr(dispatcher, "logRequests"):
+        dispatcher.logRequests = False
+    SimpleJSONRPCRequestHandler(sock, ("127.0.0.1", 1), dispatcher)
+    raw = bytes(sock.sent)
+    headpart, _, reply = raw.partition(b"\r\n\r\n")
+    lines = headpart.split(b"\r\n")
+    headers = []
+    for line in lines[1:]:
+        name, _, value = line.partition(b":")
+        headers.append((name.decode("latin-1"), value.strip().decode("latin-1")))
+    return lines[0].decode("latin-1"), headers, reply, sock.rfile.reads
